@@ -22,12 +22,33 @@ add("C03", "x_parse", MC, "bounded exhaustive enumeration of malformed inputs (a
 add("C10", "x_parse", MC, "bounded exhaustive input enumeration with relational oracle on parse end / error pointer / termination flag",
     "For every enumerated buffer: end pointer range, prefix re-parse equality, exact characterisation of require_null_terminated, error pointer == *return_parse_end inside the buffer, NULL error pointer after success, independence of the return_parse_end argument.", PARSE_NOTE, "DESIGN.md §3 C10")
 
+PRINT_NOTE = ("Trusted: gcc ASan/UBSan, guard pages and the allocation ledger as memory oracles; the harness' strict decoder S; libc strtod/printf. Trees are bounded by the node bound and the stated leaf/key alphabets; "
+              "doubles by the sweep (every binary exponent x mantissa patterns, decimal grids, dense low/high binades); only the C locale exists in this image.")
+add("C04", "x_print", MC, "bounded exhaustive enumeration of trees x print configurations (every prebuffer size, both allocator kinds) executed on the real printer and parser",
+    "All trees up to 5 (thorough 6) nodes over {null,true,false,1,\"s\"} x keys {a,b} built through the construction API, constant-key API, bulk constructors and the parser; number sweep over every binary exponent, decimal grids and dense extreme binades; "
+    "all 1-byte strings and all strings up to 2 (3) bytes over a 12-byte alphabet as value and key; every token kind moved across the 256-byte growth boundary. Per tree: Print, PrintUnformatted, PrintBuffered for every prebuffer 0..len+2, PrintPreallocated, with and without realloc; "
+    "each text is re-parsed and compared node by node (2^-52 relative, integers exact) and re-printed (fixed point).", PRINT_NOTE, "DESIGN.md §3 C04")
+add("C05", "x_print", MC, "bounded exhaustive enumeration of trees x print configurations, every output fed to an independent strict RFC 8259 decoder",
+    "Same tree space (valid UTF-8 strings) plus non-finite numbers: every output must be accepted by the independent strict decoder and decode to the tree's value, formatted minus whitespace outside strings must equal unformatted byte for byte, all buffered/preallocated variants must equal the plain ones, integer-valued numbers print as plain decimals.", PRINT_NOTE, "DESIGN.md §3 C05")
+add("C09", "x_print", MC, "bounded exhaustive enumeration of trees x every caller-buffer length 0..len+16 x both formats with the buffer flush against a guard page",
+    "cJSON_PrintPreallocated on a buffer of exactly n bytes whose end touches a PROT_NONE page, canary before it, pre-filled with non-zero bytes: no fault, true only with the exact zero-terminated text, true for n >= len+1+5, monotone in n, negative length / NULL refused; raw items included.", PRINT_NOTE, "DESIGN.md §3 C09")
+
 NA = [dict(property_id=p, reason="check not built yet in this revision (planned: see DESIGN.md §3); nothing is claimed for it") for p in
       ["C04","C05","C06","C07","C08","C09","C11","C12","C13","C14","C15","C16","C17","C18","C19","C20"] if p not in C]
+ENGINES = [
+ dict(name="x_parse", path="src/x_parse.cpp", serves_properties=["C01","C02","C03","C10"], kind_free_text="bounded exhaustive input enumeration over the real parse entry points, forked worker pool with crash capture"),
+ dict(name="x_print", path="src/x_print.cpp", serves_properties=["C04","C05","C09"], kind_free_text="bounded exhaustive tree enumeration x print configuration sweep on the real printer"),
+ dict(name="x_hist", path="src/x_hist.cpp", serves_properties=["C06","C07","C11","C14","C19"], kind_free_text="explicit-state breadth-first search over the real edit API with canonical-state de-duplication against a list/map model"),
+ dict(name="x_fault", path="src/x_fault.cpp", serves_properties=["C08"], kind_free_text="exhaustive single-fault enumeration: every allocation request of every scenario refused in turn"),
+ dict(name="x_compare", path="src/x_compare.cpp", serves_properties=["C12"], kind_free_text="all ordered pairs of enumerated trees against reference equality"),
+ dict(name="x_minify", path="src/x_minify.cpp", serves_properties=["C13"], kind_free_text="bounded exhaustive byte strings and token/gap combinations through cJSON_Minify in guard-page buffers"),
+ dict(name="x_utils", path="src/x_utils.cpp", serves_properties=["C15","C16","C17","C18"], kind_free_text="bounded exhaustive documents x pointers / patches / document pairs against RFC 6901/6902/7396 reference evaluators"),
+ dict(name="x_sched", path="src/x_sched.cpp", serves_properties=["C20"], kind_free_text="preemption-bounded stateless exploration of thread interleavings at every access to static storage"),
+]
 M = dict(version=1, setup_cmd="make -C /verif setup",
          hooks=dict(guard="DAVEGAMBLE_CJSON_VERIF", enable="no source hooks are used: checks compile the unmodified cJSON.c/cJSON_Utils.c from /repo with sanitizers and interpose the allocator at link time (-Wl,--wrap=malloc,...)",
                     baseline_off_cmd="/verif/tools/baseline.sh", source_commits=[], add_only=True),
-         engines=[dict(name="x_parse", path="src/x_parse.cpp", serves_properties=["C01","C02","C03","C10"], kind_free_text="bounded exhaustive input enumeration over the real parse entry points, forked worker pool with crash capture")],
+         engines=[e for e in ENGINES if any(p in C for p in e["serves_properties"])],
          checks=[C[k] for k in sorted(C)],
          notes="All checks are bounded exhaustive explorations of the real implementation built from /repo's working tree (VERIF_REPO overrides the path). known_findings.json lists recorded defects; evidence/ is rewritten by every run.",
          not_applicable=NA)
